@@ -52,9 +52,17 @@ def execute(c):
     P, hist = c["P"], c["hist"]
     n = len(P)
     from swcgeom.core import Tree
-    t0 = Tree(n, id=np.arange(n, dtype=np.int32), pid=np.array(P, dtype=np.int32),
-              x=np.array([10 + k + 1 for k in range(n)], dtype=np.float32), type=np.array([1 + (k + 1) % 3 for k in range(n)], dtype=np.int32),
-              e=np.array([50 + k + 1 for k in range(n)], dtype=np.int32))
+    xs0 = np.array([10 + k + 1 for k in range(n)], dtype=np.float32)
+    ty0 = np.array([1 + (k + 1) % 3 for k in range(n)], dtype=np.int32)
+    e0 = np.array([50 + k + 1 for k in range(n)], dtype=np.int32)
+    if lib.vid(c) % 3 == 1:
+        # the same values held in strided columns (columns of one 2-d block, as after an affine transform or a table sliced column-wise)
+        fb = np.zeros((n, 3), dtype=np.float32); fb[:, 1] = xs0
+        ib = np.zeros((n, 2), dtype=np.int32); ib[:, 0] = ty0; ib[:, 1] = e0
+        xs0, ty0, e0 = fb[:, 1], ib[:, 0], ib[:, 1]
+    t0 = Tree(n, id=np.arange(n, dtype=np.int32), pid=np.array(P, dtype=np.int32), x=xs0, type=ty0, e=e0)
+    if lib.vid(c) % 3 == 1 and t0.ndata["x"].flags["C_CONTIGUOUS"]:
+        t0.ndata["x"], t0.ndata["type"] = xs0, ty0          # the constructor made them contiguous: install the strided columns directly
     trees, views = [t0], []       # views: (kind, object, origin_ids-for-detached)
     steps = []
     for act in hist:
@@ -120,6 +128,22 @@ def execute(c):
         for k, s in enumerate(treesegs):
             if ints(xs[k]) != [int(round(float(t0.x()[s[0]]))), int(round(float(t0.x()[s[1]])))]:
                 treesegs[k] = [-7, -7]
+    # containers of segments whose members have different owners: detached segments, segments of several branches
+    try:
+        from swcgeom.core.compartment import Compartments
+        if len(segs):
+            det = Compartments([sg.detach() for sg in segs])
+            if [ints(r) for r in det.x()] != [ints(r) for r in segs.x()] or [ints(r) for r in det.type()] != [ints(r) for r in segs.type()]:
+                treesegs = [[-8, -8]]
+        brs = t0.get_branches()
+        if len(brs) >= 2:
+            mix = brs[0].get_segments()
+            mix.extend(brs[1].get_segments())
+            want = [ints(r) for r in brs[0].get_segments().x()] + [ints(r) for r in brs[1].get_segments().x()]
+            if [ints(r) for r in mix.x()] != want:
+                treesegs = [[-9, -9]]
+    except Exception:      # noqa: BLE001 - reported through the same clause
+        treesegs = [[-10, -10]]
     m = t0.get_adjacency_matrix().tocoo()
     adj = sorted([int(r), int(cc)] for r, cc, v in zip(m.row, m.col, m.data) if v != 0)
     return {"steps": steps, "treesegs": treesegs, "adj": adj}
